@@ -8,6 +8,9 @@ use vecdb::{Cursor, ReadableVec};
 
 use crate::vecreplay::Elem;
 
+/// CachedVec budget that never grants a slot (reads must fall through to the inner vector)
+pub static REFUSE: std::sync::atomic::AtomicUsize = std::sync::atomic::AtomicUsize::new(0);
+
 pub struct ReadReport {
     pub calls: u64,
     /// (path, from, to, description) — disagreement or panic
